@@ -275,10 +275,13 @@ def check_vector(v):
             g = bnp.Genome.from_dict(sizes, filter_function=ignore_underscores)
         else:
             g = bnp.Genome.from_dict(sizes)
+        gder = None
         if v.get("derived"):
-            # Derive: a second genome with more ignored names is made from this one and dropped; this one keeps its own
+            # Derive: a second genome with more ignored names is made from this one; this one keeps its own (DeriveFrame), and the derived
+            # one ignores the parent's names as well as the new one (DerivedKeepsIgnored)
             g.with_ignored_added([genome[-1], "x"])
             g.get_genome_context().with_ignored_added([genome[-1], "x"])
+            gder = g.with_ignored_added(np.array(["x"]))          # the names given as a NumPy array
         for pipe, (_m, cons, fn) in PIPELINES.items():
             if cons != v["consumer"]:
                 continue
@@ -287,6 +290,14 @@ def check_vector(v):
                     continue
                 n += 1
                 judge(pipe, cuts, outcome(fn, g, genome, lambda cls: _stream(rows, cuts, cls)))
+        if gder is not None and rows and compatible and "x" not in groups:
+            # data without the newly ignored name through the derived genome: what the parent gives (its own ignored name is still dropped)
+            for pipe, (_m, cons, fn) in PIPELINES.items():
+                if cons != v["consumer"] or pipe not in ("mask.get_data", "fields"):
+                    continue
+                cuts = _chunkings(len(rows))[-1]
+                n += 1
+                judge(pipe + "[derived genome]", cuts, outcome(fn, gder, genome, lambda cls: _stream(rows, cuts, cls)))
         if v["consumer"] == "exact" and rows and compatible and not ignored and len(genome) >= 2 and not v.get("derived"):
             # a streamed track tied to this genome indexed by intervals tied to a SEPARATELY built genome: the same contigs in the same
             # order give each interval the values of its own contig; in the opposite order the pair is refused (ReversedIsIncompatible)
@@ -337,7 +348,7 @@ GENOMES = {"G1": ["a"], "G2": ["a", "b"], "G3": ["a", "b", "c"], "G4": ["a", "b"
 
 def run(ctx):
     quick = ctx.tier == "quick"
-    invs = ["NoSilentDrop", "NoSpuriousError", "PrefixRight", "TypeOK", "ReversedIsIncompatible", "Emit"]
+    invs = ["NoSilentDrop", "NoSpuriousError", "PrefixRight", "TypeOK", "ReversedIsIncompatible", "DerivedKeepsIgnored", "Emit"]
     vectors = []
     plan = [("G1", "i_g"), ("G2", "i_g"), ("G3", "i_g"), ("G3u", ""), ("G3p", ""), ("G3r", "")] + ([] if quick else [("G4", "i_g")])
     for gname, ign in plan:
